@@ -112,10 +112,12 @@ impl BoxedUint {
         let nlimbs = (bits_precision / Limb::BITS) as usize;
         let bytes = hex.as_bytes();
 
-        assert!(
-            bytes.len() == Limb::BYTES * nlimbs * 2,
-            "hex string is not the expected size"
-        );
+        // The length of the input is not secret: reject a string of the wrong size like any other
+        // malformed input instead of panicking.
+        if bytes.len() != Limb::BYTES * nlimbs * 2 {
+            return CtOption::new(Self::zero_with_precision(bits_precision), Choice::from(0));
+        }
+
         let mut res = vec![Limb::ZERO; nlimbs];
         let mut buf = [0u8; Limb::BYTES];
         let mut i = 0;
